@@ -233,6 +233,21 @@ def runMember (line : String) : String :=
     | _, _, _ => "bad-op"
   | _ => "bad-op"
 
+/-! ### The template split alone: `(split xPATH)` → `err` | xDIR xPREFIX xEXT -/
+
+def runSplit (line : String) : String :=
+  match Sexp.parse line with
+  | some (.list [.atom "split", p]) =>
+    match nats? p with
+    | some p =>
+      match dirPrefixExt p with
+      | none => "err\terr"
+      | some (d, pf, e) =>
+        hexOfNats d ++ " " ++ hexOfNats pf ++ " " ++ hexOfNats e ++ "\t" ++
+          (if d.isEmpty then "nodir" else "dir") ++ (if (splitLast dot p).isSome then "-dot" else "-nodot")
+    | none => "bad-op"
+  | _ => "bad-op"
+
 def streams : List (String × (String → String)) :=
   [("c10", run)]
 
